@@ -31,6 +31,7 @@ def check(ctx, tier):
     rlrules.empty_interval_direction(ctx, "C14.b")
     slice_nonempty(ctx, tk)
     encoder(ctx, tk)
+    encoder_keeps_element_type(ctx, tk)
     decoder(ctx, tk)
     fs = [ctx.func(RL + n) for n in ("from_array", "to_array", "__init__", "_step_subset", "_apply_binary_func", "join_runs", "remove_empty_intervals")]
     us = [ctx.func("util." + n) for n in ("unsafe_extend_left", "unsafe_extend_right", "unsafe_extend_left_2d", "unsafe_extend_right_2d")]
@@ -97,6 +98,37 @@ def slice_nonempty(ctx, tk):
     m, cons, (E, G, L) = order_atoms("start_vs_end", lambda t: t == s_t, lambda t: t == e_t)
     check_guard(ctx, "C14.b", f, sinks, Formulas([m]), lambda A: A[L], [E, G, L],
                 "a sub-range is extracted only for start < end (an empty range would produce an empty run)", fa=fa, constraints=cons)
+
+
+def encoder_keeps_element_type(ctx, tk):
+    """lossless means the element type too: the encoder does not rebind its input to a conversion into a FIXED dtype
+    (array = array.astype(np.float32), np.asanyarray(array, dtype=np.int64)) - the run values would be taken from the converted array"""
+    f = ctx.func(RL + "from_array")
+    what = "the encoder takes the run values from the input in its own element type"
+    param = f.params[1] if len(f.params) > 1 and f.params[0] == "cls" else (f.params[0] if f.params else None)
+    if param is None:
+        return
+    bad = None
+    for x in ast.walk(f.node):
+        if not (isinstance(x, ast.Assign) and any(isinstance(t, ast.Name) and t.id == param for t in x.targets) and isinstance(x.value, ast.Call)):
+            continue
+        c = x.value
+        d = None
+        if isinstance(c.func, ast.Attribute) and c.func.attr == "astype" and c.args and isinstance(c.func.value, ast.Name) and c.func.value.id == param:
+            d = c.args[0]
+        elif isinstance(c.func, ast.Attribute) and c.func.attr in ("asarray", "asanyarray", "array", "ascontiguousarray"):
+            d = dict((k.arg, k.value) for k in c.keywords).get("dtype", c.args[1] if len(c.args) > 1 else None)
+        if d is None:
+            continue
+        fixed = (isinstance(d, ast.Attribute) and isinstance(d.value, ast.Name) and d.value.id in ("np", "numpy")) or \
+            (isinstance(d, ast.Name) and d.id in ("int", "float", "bool", "complex")) or (isinstance(d, ast.Constant) and isinstance(d.value, str))
+        if fixed:
+            bad = x
+    if bad is not None:
+        ctx.violated("C14.e", f, what, "`%s` replaces the input by a copy in a fixed element type: the encoded array (and what it decodes to) has that type, not the input's" % ast.unparse(bad)[:110],
+                     node=bad, engine="E5")
+    else:
+        ctx.holds("C14.e", f, what, engine="E5")
 
 
 def encoder(ctx, tk):
